@@ -27,11 +27,21 @@ RULES = {
     'C13.d': 'next_version branch order: keep-marker, resolving, stored-in-conflict, unversioned, versioned',
     'C13.f': 'the pending-conflict test examines EVERY conflict record of the key: its answer is any/all (or a loop) over the whole '
              'list returned by the record lister, through element-preserving adaptors only, testing !starts_with(resolved prefix)',
+    'C13.g': 'a conflict is chained behind earlier records only when the stored entry carries the in-conflict marker: in the Arbiter arm '
+             'the lookup of existing conflict records is dominated by the true edge of old_version == marker (a first conflict of a new '
+             'cycle must be notified with the stored value and version, not with a resolved record of an earlier cycle)',
+    'C13.h': 'the "an arbiter has registered" predicate is monotone: it is a key test on Watchers.map, and no code removes entries of '
+             'Watchers.map (unwatch leaves an empty list)',
     'C13.e': 'Resolve arm: the primary applies, any other role forwards (both credential branches)',
 }
 
 
 def run(ck, m):
+    _run(ck, m)
+    watchers_monotone(ck, m)
+
+
+def _run(ck, m):
     for k, v in RULES.items():
         ck.rule(k, v)
     P = m.prog
@@ -77,6 +87,24 @@ def run(ck, m):
     ck.ob('C13.a', fn, 'arbiter-sequence', order_ok,
           'marker write, delivery, record write, replication and the error reply follow each other on every path' if order_ok else
           'Arbiter sequence broken: missing %s (steps found: %s)' % (missing, {n: len(x) for n, x in steps}), rb.loc(arb))
+    # (g) chaining only under the marker
+    lists = [x for x in with_arb if rb.term(x)['k'] == 'call' and P.bodies.get(callee(rb.term(x))) is not None
+             and P.bodies[callee(rb.term(x))].locals[0].startswith('std::vec::Vec<std::string::String') and not is_log(rb.term(x))]
+    gated = []
+    for bl_i, bl in enumerate(rb.blocks):
+        for s in bl['s']:
+            if s['k'] == 'assign' and s['r']['k'] == 'bin' and s['r']['op'] == 'Eq':
+                vals = [const_val(r) for k_ in ('a', 'b') for r in origins(rb, s['r'][k_]) if r[0] == 'const']
+                if -2 in vals:
+                    for (s2, tt, ft) in bool_switches(rb, local=s['l']['l']):
+                        gated += [x for x in lists if rb.dominates(tt, x) and not rb.dominates(ft, x)]
+    okg = bool(lists) and all(x in gated for x in lists)
+    ck.ob('C13.g', fn, 'chains-only-under-the-marker', okg,
+          'existing conflict records are looked up only when the stored entry carries the in-conflict marker' if okg else
+          'the Arbiter arm looks up existing conflict records (%s) without testing that the stored entry carries the in-conflict marker: the '
+          'first conflict of a later cycle is chained behind an already resolved record, the arbiter is shown that record instead of the stored '
+          'value and version, and its answer lands at a version below the stored one' % [rb.loc(x) for x in lists if x not in gated],
+          rb.loc(lists[0]) if lists else rb.loc(arb))
     # marker write keeps the old value and the marker version
     okm = False
     if raw_writer:
@@ -296,3 +324,26 @@ def run(ck, m):
               'Resolve closure: applies on primary=%s, forwards when not primary=%s' % ([e.bi in pr for e in app], [e.bi in npr for e in fwd]),
               '%s:%s' % (cb.file, cb.line))
     ck.floor('C13.e', ne, 1, 'credential branches of the Resolve arm (one shared closure or one per branch)')
+
+
+
+def watchers_monotone(ck, m):
+    P = m.prog
+    WM = 'std::collections::HashMap::<std::string::String, std::vec::Vec<futures::futures_channel::mpsc::Sender<std::string::String>>>::'
+    pred = [b for b in P.user_bodies() if b.kind == 'method' and b.locals[0] == 'bool' and b.argc == 1 and b.locals[1] == '&nundb::bo::Database'
+            and any(t['f'].get('dargs', '').startswith(WM + 'contains_key') for _, t in b.calls())]
+    removers = []
+    for b in P.user_bodies():
+        if b.id.startswith(('nundb::client::', 'nundb::command_line::')):
+            continue
+        for bi, t in b.calls():
+            da = t['f'].get('dargs', '')
+            if da.startswith(WM) and callee_decl(t).split('::')[-1] in ('remove', 'remove_entry', 'clear', 'retain', 'drain'):
+                removers.append((b, bi))
+    ok = bool(pred) and not removers
+    ck.ob('C13.h', short(pred[0].id) if pred else 'has_arbiter', 'registered-predicate-monotone', ok,
+          'no code removes entries of Watchers.map: once an arbiter registered the predicate stays true' if ok else
+          ('entries of Watchers.map are removed at %s: after the arbiter session ends the predicate turns false again, a write to a key that '
+           'is already in conflict resolution is refused with "no arbiter" instead of queueing behind the pending conflict'
+           % ['%s@%s' % (short(b.id), b.loc(bi)) for b, bi in removers] if pred else 'arbiter-registered predicate not found'),
+          removers[0][0].loc(removers[0][1]) if removers else '')
